@@ -907,6 +907,9 @@ norm_list_computation(ibz_t *list,
         }
         if (!found) {
             // no suitable factor was found, we cannot find any suitable integer
+            ibz_finalize(&temp);
+            ibz_finalize(&remainder);
+            ibz_finalize(&elli);
             return 0;
         }
         // now we actually try to find integers
